@@ -126,11 +126,20 @@ def prefix_ty(ty, pre):
     return r
 
 
+SLOT_PATHS = {1: "src/a_g%d.rs", 2: "src/m/b_g%d.rs", 3: "src/m/n/c_g%d.rs", 4: "src/z_g%d.rs"}
+
+
 def graph_source(i, g):
-    """-> (rust text, abstract types, abstract roots, prefix)"""
+    """-> ({file slot: rust text}, abstract types, abstract roots, prefix).  Slots follow g["place"] (DESIGN: the
+    order of the slots' paths is the order in which the analyser walks the files); a case without a layout puts
+    everything into slot 1."""
     pre = "G%d" % i
-    parts = []
+    place = g.get("place") or {}
+    parts = {}
     types = {}
+
+    def put(who, text):
+        parts.setdefault(int(place.get(who, place.get("cmd", 1))), []).append(text)
     for n in g["nodes"]:
         fields = []
         lines = []
@@ -141,7 +150,7 @@ def graph_source(i, g):
             fields.append({"ctx": e["ctx"], "to": pre + e["to"]})
         serde = bool(g["serde"][n])
         derive = "#[derive(Serialize, Deserialize)]\n" if serde else "#[derive(Debug, Clone)]\n"
-        parts.append("%spub struct %s%s {\n    pub id: u32,\n%s}\n" % (derive, pre, n, "".join(lines)))
+        put(n, "%spub struct %s%s {\n    pub id: u32,\n%s}\n" % (derive, pre, n, "".join(lines)))
         types[pre + n] = {"serde": serde, "fields": fields}
     roots = []
     for j, r in enumerate(g["roots"]):
@@ -149,17 +158,17 @@ def graph_source(i, g):
         ty = rustgen.spell(prefix_ty(r["ty"], pre), sp)
         fn = "g%d_r%d" % (i, j)
         if r["site"] == "param":
-            parts.append("#[tauri::command]\npub fn %s(x: %s) {}\n" % (fn, ty))
+            put("cmd", "#[tauri::command]\npub fn %s(x: %s) {}\n" % (fn, ty))
         elif r["site"] == "ret":
-            parts.append("#[tauri::command]\npub fn %s() -> %s {\n    todo!()\n}\n" % (fn, ty))
+            put("cmd", "#[tauri::command]\npub fn %s() -> %s {\n    todo!()\n}\n" % (fn, ty))
         elif r["site"] == "chan":
-            parts.append("#[tauri::command]\npub fn %s(ch: Channel<%s>) {}\n" % (fn, ty))
+            put("cmd", "#[tauri::command]\npub fn %s(ch: Channel<%s>) {}\n" % (fn, ty))
         elif r["site"] == "event":
-            parts.append("pub fn %s(app: tauri::AppHandle, x: %s) {\n    app.emit(\"g%d-ev%d\", x).ok();\n}\n" % (fn, ty, i, j))
+            put("cmd", "pub fn %s(app: tauri::AppHandle, x: %s) {\n    app.emit(\"g%d-ev%d\", x).ok();\n}\n" % (fn, ty, i, j))
         elif r["site"] == "err":
-            parts.append("#[tauri::command]\npub fn %s() -> Result<u8, %s> {\n    todo!()\n}\n" % (fn, ty))
+            put("cmd", "#[tauri::command]\npub fn %s() -> Result<u8, %s> {\n    todo!()\n}\n" % (fn, ty))
         roots.append({"site": r["site"], "ctx": r["ctx"], "to": pre + r["to"]})
-    return "\n".join(parts), types, roots, pre
+    return {k: "\n".join(v) for k, v in parts.items()}, types, roots, pre
 
 
 def declared_types(b, pre):
@@ -191,42 +200,87 @@ def emit_fn(i, case, name=None, payload="1", typed=None):
     else:
         call = "%s.emit_to(\"main\", %s, %s)" % (recv, ev, payload)
     p = case["placed"]
+    frames = list(case.get("frames") or [])
     is_async = p == "await"
+    # ---- the tail form: the statement(s) that hold the call
     if p == "stmt":
-        body = "    %s;\n" % call
+        inner = ["%s;" % call]
     elif p == "let_init":
-        body = "    let _r = %s;\n" % call
-    elif p == "if_then":
-        body = "    if flag {\n        %s;\n    }\n" % call
-    elif p == "if_else":
-        body = "    if flag {\n        helper();\n    } else {\n        %s;\n    }\n" % call
+        inner = ["let _r = %s;" % call]
     elif p == "match_arm_expr":
-        body = "    match n {\n        0 => helper(),\n        _ => { let _ = 1; }\n    }\n    match n {\n        1 => %s.unwrap(),\n        _ => {}\n    }\n" % call
-    elif p == "match_arm_block":
-        body = "    match n {\n        1 => {\n            %s;\n        }\n        _ => {}\n    }\n" % call
-    elif p == "loop":
-        body = "    loop {\n        %s;\n        break;\n    }\n" % call
-    elif p == "while":
-        body = "    while flag {\n        %s;\n    }\n" % call
-    elif p == "for":
-        body = "    for _i in 0..n {\n        %s;\n    }\n" % call
-    elif p == "nested_block":
-        body = "    {\n        {\n            %s;\n        }\n    }\n" % call
+        inner = ["match n {", "    0 => helper(),", "    _ => { let _ = 1; }", "}", "match n {", "    1 => %s.unwrap()," % call, "    _ => {}", "}"]
     elif p == "try_op":
-        body = "    %s?;\n    Ok(())\n" % call
+        inner = ["%s?;" % call]
     elif p == "await":
-        body = "    %s.await;\n" % call
+        inner = ["%s.await;" % call]
     elif p == "unwrap_recv":
-        body = "    %s.unwrap();\n" % call
+        inner = ["%s.unwrap();" % call]
     elif p == "ok_recv":
-        body = "    %s.ok();\n" % call
-    elif p == "closure":
-        body = "    let f = || {\n        %s;\n    };\n    f();\n" % call
-    elif p == "nested_fn":
-        body = "    fn inner(%s) {\n        %s;\n    }\n" % (params, call)
+        inner = ["%s.ok();" % call]
+    elif p == "tail_expr":
+        inner = ["helper();", "%s" % call]
+    elif p == "return_expr":
+        inner = ["return %s;" % call]
+    elif p == "cond":
+        inner = ["if %s.is_ok() {" % call, "    helper();", "}"]
     else:
         raise ValueError(p)
-    ret = " -> Result<(), tauri::Error>" if p == "try_op" else ""
+    ind = lambda ls: ["    " + l for l in ls]
+    # ---- the enclosing frames, innermost last
+    for depth, f in enumerate(reversed(frames)):
+        bare = p == "tail_expr" and depth == 0      # the block must end with the call itself
+        if bare and f in ("loop", "labeled_loop"):
+            inner = ["%sloop {" % ("'outer: " if f == "labeled_loop" else ""), "    if flag {", "        break;", "    }"] + ind(inner) + ["}"]
+        elif bare and f == "let_init_if":
+            inner = ["let _v = if flag {"] + ind(inner) + ["} else {", "    Ok(())", "};"]
+        elif bare and f == "let_init_match":
+            inner = ["let _v = match n {", "    1 => {"] + ind(ind(inner)) + ["    }", "    _ => Ok(()),", "};"]
+        elif f == "if_then":
+            inner = ["if flag {"] + ind(inner) + ["}"]
+        elif f == "if_else":
+            inner = ["if flag {", "    helper();", "} else {"] + ind(inner) + ["}"]
+        elif f == "else_if":
+            inner = ["if flag {", "    helper();", "} else if n > 1 {"] + ind(inner) + ["}"]
+        elif f == "else_if_else":
+            inner = ["if flag {", "    helper();", "} else if n > 1 {", "    helper();", "} else {"] + ind(inner) + ["}"]
+        elif f == "if_let":
+            inner = ["if let Some(_v) = next_item() {"] + ind(inner) + ["}"]
+        elif f == "match_arm_block":
+            inner = ["match n {", "    1 => {"] + ind(ind(inner)) + ["    }", "    _ => {}", "}"]
+        elif f == "loop":
+            inner = ["loop {"] + ind(inner) + ["    break;", "}"]
+        elif f == "labeled_loop":
+            inner = ["'outer: loop {"] + ind(inner) + ["    break 'outer;", "}"]
+        elif f == "while":
+            inner = ["while flag {"] + ind(inner) + ["}"]
+        elif f == "while_let":
+            inner = ["while let Some(_v) = next_item() {"] + ind(inner) + ["}"]
+        elif f == "for":
+            inner = ["for _i in 0..n {"] + ind(inner) + ["}"]
+        elif f == "nested_block":
+            inner = ["{", "    {"] + ind(ind(inner)) + ["    }", "}"]
+        elif f == "labeled_block":
+            inner = ["'blk: {"] + ind(inner) + ["}"]
+        elif f == "let_init_if":
+            inner = ["let _v = if flag {"] + ind(inner) + ["    1", "} else {", "    2", "};"]
+        elif f == "let_init_match":
+            inner = ["let _v = match n {", "    1 => {"] + ind(ind(inner)) + ["        1", "    }", "    _ => 2,", "};"]
+        elif f == "unsafe_block":
+            inner = ["unsafe {"] + ind(inner) + ["}"]
+        elif f == "async_block":
+            inner = ["let _fut = async move {"] + ind(inner) + ["};"]
+        elif f == "closure":
+            inner = ["let f = || {"] + ind(inner) + ["};", "f();"]
+        elif f == "nested_fn":
+            inner = ["fn inner(%s, flag: bool, n: u32) {" % params] + ind(inner) + ["}"]
+        else:
+            raise ValueError(f)
+    tail_is_last = p == "tail_expr" and not frames
+    body = "".join("    %s\n" % l for l in inner)
+    if p == "try_op" or tail_is_last:
+        if not tail_is_last:
+            body += "    Ok(())\n"
+    ret = " -> Result<(), tauri::Error>" if (p == "try_op" or tail_is_last) else ""
     extra = (", " + typed) if typed else ""
     head = "pub %sfn emitter_%d(%s, flag: bool, n: u32%s)%s {\n" % ("async " if is_async else "", i, params, extra, ret)
     const = "" if case["lit"] else "const EVENT_NAME_%d: &str = \"%s\";\n" % (i, name)
@@ -245,6 +299,9 @@ impl Ctx {
     }
 }
 fn helper() {}
+fn next_item() -> Option<u8> {
+    None
+}
 
 #[tauri::command]
 pub fn anchor_cmd() {}
